@@ -766,9 +766,11 @@ fn absurd_cases() -> Vec<AbsurdCase> {
     ];
     for d in dicts {
         for version in [1u8, 2, 3] {
-            let mut bytes = crate::model::npy::wrap_header(d, version, 64);
-            bytes.extend([0u8; 24]);
-            v.push(AbsurdCase { content: bytes, name: "abs.npy".into() });
+            for data in [0usize, 8, 24] {
+                let mut bytes = crate::model::npy::wrap_header(d, version, 64);
+                bytes.extend(vec![0u8; data]);
+                v.push(AbsurdCase { content: bytes, name: "abs.npy".into() });
+            }
         }
     }
     // header length fields
@@ -792,7 +794,7 @@ fn eval_absurd(ctx: &Ctx, case: &AbsurdCase) -> Verdict {
     let dir = ctx.worker_dir(crate::engine::worker_id());
     std::fs::write(dir.join(&case.name), &case.content).expect("write");
     let mut pass = Pass::new();
-    for c in [vec!["view"], vec!["view", "--mask-monomorphic", "-n"], vec!["view", "-O", "npy"], vec!["fold"], vec!["stat", "-s", "sum"], vec!["stat", "-s", "s"], vec!["stat", "-s", "pi"], vec!["stat", "-s", "f2"], vec!["view", "-m", "0"], vec!["view", "-p", "1"]] {
+    for c in [vec!["view"], vec!["view", "--mask-monomorphic", "-n"], vec!["view", "-O", "npy"], vec!["fold"], vec!["stat", "-s", "sum"], vec!["stat", "-s", "s"], vec!["stat", "-s", "pi"], vec!["stat", "-s", "f2"], vec!["stat", "-s", "king"], vec!["stat", "-s", "r1,r0"], vec!["stat", "-s", "fst"], vec!["stat", "-s", "f3"], vec!["stat", "-s", "f4,pi-xy"], vec!["stat", "-s", "d-fu-li,d-tajima,theta"], vec!["view", "-m", "0"], vec!["view", "-p", "1"]] {
         let mut argv: Vec<String> = c.iter().map(|s| s.to_string()).collect();
         argv.push(case.name.clone());
         let run = cli::sfs(ctx, &argv, Input::Null, &dir);
@@ -954,7 +956,7 @@ pub fn check(ctx: &Ctx) -> Check {
         }),
         Box::new(EnumPart {
             name: "absurd-shapes",
-            rule: "text headers declaring 0-length axes, products beyond 2^64, 40 axes, malformed headers; every tuple of <=3 axis lengths over {0,1,2,3,2^32,2^63,2^64-1} in text (399 x 3 bodies) and over {0,1,2,2^32,2^64-1} in npy (155 x 3 data lengths); npy dicts with 0 / huge / empty / duplicate shapes, header lengths 0 .. 2^32-1, unknown versions; each through 10 view/fold/stat commands",
+            rule: "text headers declaring 0-length axes, products beyond 2^64, 40 axes, malformed headers; every tuple of <=3 axis lengths over {0,1,2,3,2^32,2^63,2^64-1} in text (399 x 3 bodies) and over {0,1,2,2^32,2^64-1} in npy (155 x 3 data lengths); npy dicts with 0 / huge / empty / duplicate shapes, header lengths 0 .. 2^32-1, unknown versions; each through 16 view/fold/stat commands (every statistic family, so that the diagnostics for a wrong dimensionality are built too)",
             exhaustive: true,
             cases: Box::new(|_| absurd_cases()),
             eval: Box::new(eval_absurd),
